@@ -218,8 +218,56 @@ fn kind_coq(k: Kind, none: bool) -> &'static str {
 	}
 }
 
+/// the container's own allocation announcements as failure points: the all-success script under
+/// every memory limit up to its tracked usage (each limit makes a different announcement the
+/// failing one); whatever happens, the ledger and the heap must be balanced afterwards
+fn limit_sweep<T: DecodeWithMemTracking>(cx: &mut Cx, tname: &str, prefix: &[u8], slots: usize) {
+	use parity_scale_codec::MemTrackingInput;
+	let inp = script(prefix, slots, slots, Kind::None);
+	let usage = {
+		let mut s = &inp[..];
+		let mut m = MemTrackingInput::new(&mut s, usize::MAX);
+		let r = catch_unwind(AssertUnwindSafe(|| T::decode(&mut m).map(drop).is_ok()));
+		if r.is_err() {
+			return;
+		}
+		m.used_mem()
+	};
+	let mut limits: Vec<usize> = (0..=usage.min(96)).collect();
+	if usage > 96 {
+		limits.extend([usage / 2, usage - 1, usage]);
+	}
+	for l in limits {
+		reset();
+		let m = Meter::start();
+		let res = catch_unwind(AssertUnwindSafe(|| {
+			let mut s = &inp[..];
+			T::decode_with_mem_limit(&mut s, l).map(drop).is_ok()
+		}))
+		.map_err(drop);
+		let u = m.stop();
+		let (c, d, zc, zd) = LEDGER.with(|x| {
+			let x = x.borrow();
+			(x.constructed.clone(), x.dropped.clone(), x.z_constructed, x.z_dropped)
+		});
+		cx.stats.bump(&format!("LimitSweep/{}", match res { Ok(true) => "ok", Ok(false) => "err", Err(_) => "panic" }));
+		let rp = format!("{tname}\tslots={slots}\tmem_limit={l}\tusage={usage}\tinput={}\tconstructed={:?}\tdropped={:?}\tz={}/{}\toutcome={:?}", hex(&inp), c, d, zc, zd, res);
+		cx.oracle.check(res.is_ok(), "unexpected-outcome", || rp.clone());
+		cx.oracle.check(res != Ok(true) || l > usage || usage == 0, "unexpected-outcome", || rp.clone());
+		let (mut cs, mut ds) = (c.clone(), d.clone());
+		cs.sort();
+		ds.sort();
+		let dup = ds.windows(2).any(|w| w[0] == w[1]);
+		cx.oracle.check(!dup, "element-dropped-twice", || rp.clone());
+		cx.oracle.check(cs == ds || dup, "element-leaked", || rp.clone());
+		cx.oracle.check(zc == zd, if zd > zc { "element-dropped-twice" } else { "element-leaked" }, || rp.clone());
+		cx.oracle.check(u.leaked == 0, "heap-block-leaked-or-double-freed", || format!("{rp}\tlive_delta={}", u.leaked));
+	}
+}
+
 fn all_failures<T: DecodeWithMemTracking>(cx: &mut Cx, tname: &str, prefix: &[u8], slots: usize) {
 	run_one::<T>(cx, tname, prefix, slots, slots, Kind::None);
+	limit_sweep::<T>(cx, tname, prefix, slots);
 	for at in 0..slots {
 		for kind in [Kind::Exhausted, Kind::Malformed, Kind::Limit, Kind::Panic] {
 			run_one::<T>(cx, tname, prefix, slots, at, kind);
@@ -363,7 +411,7 @@ pub fn run(args: &Args) {
 			});
 		}
 	}
-	let rule = "scripted element types (a 4-byte element and a zero-sized element, both with destructors that log into a ledger): for every container shape ([T;N], Box<[T;N]>, Rc/Arc, [Box<T>;N], nested arrays, Box/Rc/Arc of a value, Option, Result, tuples, derived struct / enum, repr(transparent) newtypes incl. through Box and arrays, Vec, VecDeque, LinkedList, BTreeSet, BTreeMap, Vec<Box<T>>, Box<Vec<T>>, Vec<[T;2]>) every failure position 0..N x {input exhausted, malformed element, limit error from on_before_alloc_mem under decode_with_mem_limit, panic in the element decoder} plus the all-success run; oracle: each constructed element dropped exactly once, none dropped twice or unconstructed, live heap bytes back to the baseline, expected outcome; case = (slots, failure position, kind, #constructed, #dropped) against the ledger model";
+	let rule = "scripted element types (a 4-byte element and a zero-sized element, both with destructors that log into a ledger): for every container shape ([T;N], Box<[T;N]>, Rc/Arc, [Box<T>;N], nested arrays, Box/Rc/Arc of a value, Option, Result, tuples, derived struct / enum, repr(transparent) newtypes incl. through Box and arrays, Vec, VecDeque, LinkedList, BTreeSet, BTreeMap, Vec<Box<T>>, Box<Vec<T>>, Vec<[T;2]>) every failure position 0..N x {input exhausted, malformed element, limit error from on_before_alloc_mem under decode_with_mem_limit, panic in the element decoder} plus the all-success run, plus the all-success script under every memory limit 0..=min(U,96) (U, U-1, U/2 beyond) so that each of the container's own allocation announcements is the failing one; oracle: each constructed element dropped exactly once, none dropped twice or unconstructed, live heap bytes back to the baseline, expected outcome; case = (slots, failure position, kind, #constructed, #dropped) against the ledger model";
 	cx.cases.write(&args.out, "c10", args.shards);
 	cx.oracle.write(&args.out);
 	cx.stats.write(&args.out, cx.cases.len(), cx.cases.nontrivial, cx.cases.dups, cx.oracle.checks, rule);
